@@ -526,6 +526,7 @@ func runC01(c *Ctx) {
 	checkSourceReadOnly(r, p)
 	checkByteArrayKeySource(r, p)
 	checkElementsThroughCodec(r, p)
+	checkCountNotComparedWithBytes(r, p)
 	// (1) dispatch mirror
 	for _, pair := range [][2]string{{"encodeBasedOnType", "decodeBasedOnType"}, {"mapEncodeBasedOnType", "mapDecodeBasedOnType"}} {
 		enc, dec := p.FuncDecl(pkgSerix, "API", pair[0]), p.FuncDecl(pkgSerix, "API", pair[1])
@@ -1211,6 +1212,64 @@ func checkMapDeterminism(r *Reporter, p *Prog) {
 		} else {
 			r.Pass("determinism/sort-before-write", pkgSer+".Serializer.WriteSliceOfByteSlices", f.P.posStr(f.Body.Pos()), "sort.Slice(data, bytes.Compare < 0) on the both-bits edge precedes the element writes")
 		}
+	}
+}
+
+// checkCountNotComparedWithBytes: the length prefix of a sequence of objects is an element COUNT. The
+// writer accepts any count its rules allow, whatever the elements encode to - an element may encode
+// to zero bytes (an empty struct) - so the reader of the count must not reject it by comparing it
+// with the number of bytes that remain: Decode(Encode(x)) would fail for collections with more
+// elements than trailing bytes. Decided on ReadSequenceOfObjects and every unexported function of the
+// package it reaches (the shared prefix reader): the remaining input length is compared with
+// constants (the width of the prefix) only.
+func checkCountNotComparedWithBytes(r *Reporter, p *Prog) {
+	const rule = "count/not-compared-with-remaining-bytes"
+	info := p.Pkg(pkgSer).TypesInfo
+	root := p.FuncDecl(pkgSer, "Deserializer", "ReadSequenceOfObjects")
+	if root == nil || root.Body == nil {
+		r.Unresolved(rule, pkgSer+".Deserializer.ReadSequenceOfObjects", "method not found")
+		return
+	}
+	di := p.decls()
+	seen := map[*ast.FuncDecl]bool{root: true}
+	work := []*ast.FuncDecl{root}
+	nConst := 0
+	bad := ""
+	for depth := 0; len(work) > 0 && depth < 4; depth++ {
+		var next []*ast.FuncDecl
+		for _, fd := range work {
+			f := newFuncCFGPlain(p, info, fd.Body, funcKey(pkgSer, fd))
+			for _, g := range remainingLenGuards(f) {
+				if g.value != nil {
+					nConst++
+					continue
+				}
+				if c := condOf(g.e.From); c != nil && bad == "" {
+					bad = fmt.Sprintf("%s: %s compares the remaining input length with %s while reading the element count of a sequence: a collection whose elements encode to fewer bytes than their number (empty structs) is written by the encoder and rejected by the decoder", p.posStr(c.Pos()), funcKey(pkgSer, fd), g.other)
+				}
+			}
+			ast.Inspect(fd.Body, func(n ast.Node) bool {
+				if c, ok := n.(*ast.CallExpr); ok {
+					if fn := staticCallee(info, c); fn != nil {
+						if cd := di.byFunc[fn.Origin()]; cd != nil && cd.Body != nil && !cd.Name.IsExported() && di.infoOf[cd] == info && !seen[cd] {
+							seen[cd] = true
+							next = append(next, cd)
+						}
+					}
+				}
+				return true
+			})
+		}
+		work = next
+	}
+	key := pkgSer + ".Deserializer.ReadSequenceOfObjects"
+	switch {
+	case bad != "":
+		r.Fail(rule, key, p.posStr(root.Pos()), bad)
+	case nConst < 4:
+		r.Fail(rule, key, p.posStr(root.Pos()), fmt.Sprintf("expected the count reader's remaining-length checks for the 4 prefix widths among the %d function(s) reached, found %d (vacuous)", len(seen), nConst))
+	default:
+		r.Pass(rule, key, p.posStr(root.Pos()), fmt.Sprintf("%d function(s) reached; the remaining input length is compared with constants only (%d width checks)", len(seen), nConst))
 	}
 }
 
